@@ -33,6 +33,7 @@ def baseline():
     passed = sum(int(m) for m in re.findall(r"test result: \w+\. (\d+) passed", p.stdout))
     # doc-tests are counted by cargo as well; the pinned baseline counts the 65 unit / integration tests
     failed = re.findall(r"^test (\S+) \.\.\. FAILED", p.stdout, re.M)
+    failed += ["doctest:" + m for m in re.findall(r"^test (\S+ - \S.*?) \.\.\. FAILED", p.stdout, re.M)]
     if "error: could not compile" in p.stdout:
         failed.append("<does not compile>")
     return passed, failed
@@ -86,7 +87,8 @@ def main():
             passed, failed = baseline()
             rec["baseline_passed"] = passed
             rec["baseline_failed"] = failed
-            rec["survives_suite"] = [f for f in failed if not f.endswith("::ui")] == [] and passed >= 65
+            rec["survives_suite"] = [f for f in failed if not f.endswith("::ui") and not f.startswith("doctest:")] == [] and passed >= 65
+            rec["doctests_failed"] = [f for f in failed if f.startswith("doctest:")]
         for prop in m.get("properties", []):
             r = check(prop)
             rec["checks"][prop] = r
@@ -104,6 +106,8 @@ def main():
         line = "%-48s " % name + " ".join("%s:%s" % (k, {0: "quiet", 1: "VIOLATION", 2: "machinery"}.get(v["exit"], v["exit"])) for k, v in rec["checks"].items())
         if with_baseline:
             line += "  suite: %s" % ("survives (%d passed)" % rec["baseline_passed"] if rec["survives_suite"] else "KILLED by " + ",".join(rec["baseline_failed"]))
+            if rec.get("doctests_failed"):
+                line += "  [doc tests failing: %d]" % len(rec["doctests_failed"])
         print(line)
         sys.stdout.flush()
     out = os.path.join(root, "results.json")
